@@ -3,3 +3,4 @@ import props.catalog  # noqa: F401
 import props.catalog_vm  # noqa: F401
 import props.catalog_types  # noqa: F401
 import props.catalog_shapes  # noqa: F401
+import props.catalog_err  # noqa: F401
